@@ -56,6 +56,19 @@ pub fn gen_tree(rng: &mut Rng, hostile_text: bool) -> CmdSpec {
         }
     }
     prefix_siblings(rng, &mut spec);
+    // equal names at different levels: a subcommand named like its parent (`tool tool`, `a a`)
+    fn same_as_parent(rng: &mut Rng, c: &mut CmdSpec) {
+        if !c.subs.is_empty() && rng.chance(1, 8) {
+            let i = rng.below(c.subs.len());
+            if !c.subs.iter().any(|s| s.name == c.name) {
+                c.subs[i].name = c.name.clone();
+            }
+        }
+        for s in c.subs.iter_mut() {
+            same_as_parent(rng, s);
+        }
+    }
+    same_as_parent(rng, &mut spec);
     spec
 }
 
